@@ -255,6 +255,10 @@ func runC18(c *Ctx) {
 	ruleUnregisterMember(c, r8)
 	c.R.Floor(r8, 9)
 
+	const rdup = "C18.R9 a repeated REGISTER by a member is not announced and not listed twice"
+	ruleNoDuplicateCallee(c, rdup)
+	c.R.Floor(rdup, 1)
+
 	const r5 = "C18.R5 kill procedures spare the caller and the meta session; testaments flushed per scope"
 	sk := rlm + "sessionKill"
 	c.Guard(r5, sk, "kill", `^call:router\.\(\*realm\)\.killSession\(`, 1, clause("target is not the caller", F(`^\(call:wamp\.AsID\(%msg\.Arguments\[0\]\)#0 == call:wamp\.AsID\(%msg\.Details\["caller"\]\)#0\)$`)))
